@@ -10,6 +10,11 @@ import Verif.Driver.ExecEnv
 import Verif.Driver.LogQLCodec
 import Verif.Driver.MetricCodec
 import Verif.Gen.Offload
+import Verif.Gen.Prec
+import Verif.Gen.Palette
+import Verif.Model.Render
+import Verif.Model.Flags
+import Verif.Model.BinOpParser
 /-! Line-protocol driver: one request per line on stdin, one reply per line on stdout.
 Core-only (no Mathlib), compiled as `lean_exe driver`. -/
 open Sexp
@@ -67,6 +72,29 @@ def ridsOut (rs : List Resources.Rid) : Sexp :=
     ins acc) []
   .list (sorted.map fun r => .atom s!"{r.1}-{r.2}")
 
+def binToks (s : Sexp) : List BinOpParser.Tok :=
+  s.items.map fun t => match t.symOf with
+    | "lp" => .lparen
+    | "rp" => .rparen
+    | a => match a.toNat? with
+      | some n => .num n
+      | none => .op (MetricCodec.binOp a)
+
+def binOpName : Metric.BinOp → String
+  | .or => "or" | .and => "and" | .unless => "unless" | .add => "add" | .sub => "sub" | .mul => "mul"
+  | .div => "div" | .mod => "mod" | .pow => "pow" | .eq => "eq" | .ne => "ne" | .gt => "gt" | .ge => "ge"
+  | .lt => "lt" | .le => "le"
+
+partial def treeOut : BinOpParser.Tree → Sexp
+  | .leaf n => .list [sym "leaf", ofNat n]
+  | .paren t => .list [sym "paren", treeOut t]
+  | .node l op r => .list [sym "node", treeOut l, sym (binOpName op), treeOut r]
+
+def treeRes (t : Option BinOpParser.Tree) : Sexp :=
+  match t with
+  | some t => .list [sym "ok", treeOut t]
+  | none => .list [sym "err"]
+
 def handle (req : Sexp) : Sexp :=
   match req.head?, req.args with
   | some "keytolabel", [k] => ofBytes (KeyToLabel.run k.toBytes)
@@ -118,6 +146,31 @@ def handle (req : Sexp) : Sexp :=
     | .ok steps =>
       .list (sym "ok" :: sym (if instant then "vector" else "matrix") ::
         (Metric.readSteps instant steps).map MetricCodec.seriesOut)
+  | some "binparse", [toks] => treeRes (BinOpParser.parseExpr Gen.prec (binToks toks))
+  | some "binspec", [mode, toks] =>
+    treeRes (BinOpParser.specExpr Gen.prec (if mode.symOf == "conv" then BinOpParser.conventional else BinOpParser.allRight) (binToks toks))
+  | some "renderout", [ts, ct, col, streams] =>
+    let ss : List Render.Stream := streams.items.map fun st => match st.items with
+      | [c, es] => ⟨c.toBytes, es.items.map fun e => match e.items with
+          | [t, v] => (t.toNat, v.toBytes)
+          | _ => (0, [])⟩
+      | _ => ⟨[], []⟩
+    (match Render.render Gen.paletteIndex Gen.paletteLen ⟨ts.toNat == 1, ct.toNat == 1, col.toNat == 1⟩ ss with
+     | some out => .list [sym "ok", ofBytes out]
+     | none => .list [sym "panic"])
+  | some "timestamp", [v, d] =>
+    (match Flags.parseTimestamp v.toBytes d.toInt with
+     | some t => .list [sym "ok", ofInt t]
+     | none => .list [sym "err"])
+  | some "timerange", [now, st, en, si] =>
+    let opt (x : Sexp) : Option (List Nat) := x.toBytes?
+    (match Flags.parseTimeRange now.toInt (opt st) (opt en) (opt si) with
+     | some (a, b) => .list [sym "ok", ofInt a, ofInt b]
+     | none => .list [sym "err"])
+  | some "step", [v, a, b] =>
+    (match Flags.parseStep v.toBytes? a.toInt b.toInt with
+     | some d => .list [sym "ok", ofInt d]
+     | none => .list [sym "err"])
   | _, _ => .list [sym "bad-op"]
 
 partial def loop (h : IO.FS.Stream) (out : IO.FS.Stream) : IO Unit := do
